@@ -74,7 +74,12 @@ def guarded(fn):
 
 def main(handlers):
     payload = json.load(sys.stdin)
+    # the library prints diagnostics (e.g. parse_types) to stdout: keep the result channel clean
+    result_channel = os.fdopen(os.dup(1), 'w')
+    os.dup2(2, 1)
+    sys.stdout = sys.stderr
     out = []
     for case in payload['cases']:
         out.append(guarded(lambda: handlers[case['op']](case)))
-    json.dump({'results': out, 'dznpy_file': dznpy.__file__}, sys.stdout)
+    json.dump({'results': out, 'dznpy_file': dznpy.__file__}, result_channel)
+    result_channel.flush()
